@@ -348,6 +348,11 @@ def run(ctx: Ctx):
     ctx.include(_c18_run, {"C18-R4", "C18-R4b"}, "C19-G4",
                 "every constructed PeerConnection (two worker threads) and its socket is registered "
                 "or closed on every path; closed connections leave the tables", floor=5)
+    ctx.include(_c18_run, {"C18-R3"}, "C19-G4g",
+                "a CLOSING connection is released once its last queued message is done: the writer "
+                "counts every message as done and wakes the node after each (otherwise the "
+                "connection, its socket and both threads stay for ever)", floor=4,
+                constructs=lambda c: "task_done" in c or "queued" in c)
     ctx.include(_c05_run, {"C05-R1", "C05-R4"}, "C19-G4b",
                 "the connection reader cannot spin for ever or end silently (a spinning reader "
                 "thread outlives its connection)", floor=2)
